@@ -3,4 +3,5 @@ import Cgm.E2E.C08
 import Cgm.E2E.C08b
 import Cgm.E2E.C08g
 import Cgm.E2E.C08h
+import Cgm.E2E.C08i
 #audit_namespace Cg.E2E.C08
